@@ -17,6 +17,7 @@ import (
 	"github.com/llir/llvm/ir"
 	"pgregory.net/rapid"
 
+	"verif/h/chaos"
 	"verif/h/corpus"
 	"verif/h/gen"
 	"verif/h/hx"
@@ -132,7 +133,9 @@ func checkInput(t hx.TB, test, x string, others []string, K int) {
 			}
 		}
 	}
-	// entry points
+	// entry points; a read that failed part-way (between two entities, inside one) came before
+	chaos.Run("reader-fails", len(x))
+	chaos.Run("reader-fails", len(x)+1)
 	dir := filepath.Join(hx.OutDir, fmt.Sprintf("c12-%d", os.Getpid()))
 	os.MkdirAll(dir, 0o755)
 	path := filepath.Join(dir, "in.ll")
